@@ -51,6 +51,10 @@ FLOORS = {"quick": {"evaluations": 2200, "distinct_nontrivial": 1400, "counters"
                     "max_skipped_fraction": 0.3},
           "thorough": {"evaluations": 45000, "distinct_nontrivial": 24000, "counters": {"compared": 40000, "lazy_meta_checked": 40000},
                        "max_skipped_fraction": 0.3}}
+# sibling facet (vf/mon/siblings.py): ~45 % of the smallest count of the five quick seeds on the unchanged tree; thorough =
+# quick floor x (thorough / quick stream size) x 0.6.  A run in which the facet never executed is INCONCLUSIVE.
+FLOORS["quick"]["counters"].update({"siblings_built": 1600, "siblings_computed_together": 230, "siblings_with_different_values": 190})
+FLOORS["thorough"]["counters"].update({"siblings_built": 19000, "siblings_computed_together": 2800, "siblings_with_different_values": 2300})
 EXHAUSTIVE_SPACE = "all 8 chunkings of shape (2,3) x 27 fixed structural operations"
 CLAIM = ("Every generated structural operation was computed by the real dask.array and compared with NumPy on the same data "
          "(shape, dtype, exact values) and with its own lazy metadata; held = no mismatch and no dask exception inside the "
